@@ -407,14 +407,17 @@ class TransformationGraph(Graph):
         self.add((a, TF["from"], b))
         if self.with_dependencies:
 
-            self.add((a, TF.depends, b))
+            # Keep `depends` the transitive closure of `from` no matter in
+            # which order edges are added: `a` and everything that already
+            # depends on `a` now depends on `b` and on everything below `b`
             if recursive:
-                for bdep in self.transitive_objects(b, TF["from"]):
-                    assert bdep
-                    self.add((a, TF.depends, bdep))
+                below = set(self.transitive_objects(b, TF["from"]))
             else:
-                for bdep in self.objects(b, TF.depends):
-                    self.add((a, TF.depends, bdep))
+                below = {b, *self.objects(b, TF.depends)}
+            above = {a, *self.subjects(TF.depends, a)}
+            for adep in above:
+                for bdep in below:
+                    self.add((adep, TF.depends, bdep))
 
     def add_workflow(self, wf: Workflow) -> dict[Node, Node]:
         """
